@@ -42,3 +42,45 @@ Proof.
   intros b p vt v1 v2 m. unfold stmts_of; simpl. destruct v1, v2; try reflexivity;
   [apply verbose_same_log | symmetry; apply verbose_same_log].
 Qed.
+
+(* ---------- ... and the same failure behaviour: the whole run is the same function ---------- *)
+Lemma exec_verbose : forall F b p vt v1 v2 oth x c i,
+  exec F (mkOpts b p vt v1) oth x c i = exec F (mkOpts b p vt v2) oth x c i.
+Proof. intros. destruct x; reflexivity. Qed.
+
+Lemma run_list_verbose : forall F b p vt v1 v2 oth l ci,
+  run_list F (mkOpts b p vt v1) oth l ci = run_list F (mkOpts b p vt v2) oth l ci.
+Proof.
+  intros F b p vt v1 v2 oth l. induction l as [|x l IH]; intros ci; simpl; [reflexivity|].
+  destruct (i_res (snd ci)); [reflexivity|]. rewrite (exec_verbose F b p vt v1 v2). apply IH.
+Qed.
+
+Lemma plan_verbose : forall b p vt v1 v2 ver ids ms,
+  plan (mkOpts b p vt v1) ver ids ms = plan (mkOpts b p vt v2) ver ids ms.
+Proof.
+  intros b p vt v1 v2 ver ids ms. induction ms as [|m ms IH]; simpl; [reflexivity|].
+  rewrite IH. rewrite (stmts_of_verbose_irrelevant b p vt v1 v2 m). reflexivity.
+Qed.
+
+(* for every fault set: committed database, result and complete call log coincide *)
+Theorem verbose_same_result : forall F b p vt ms d,
+  run F (mkOpts b p vt true) ms d = run F (mkOpts b p vt false) ms d.
+Proof.
+  intros F b p vt ms d. unfold run, run_from.
+  rewrite (run_list_verbose F b p vt true false [] prelude).
+  destruct (i_res (snd (run_list F (mkOpts b p vt false) [] prelude (d, inst0)))); [reflexivity|].
+  rewrite (plan_verbose b p vt true false). apply run_list_verbose.
+Qed.
+
+(* ... also under contention: the interleaved system steps identically *)
+Theorem verbose_same_steps : forall b p vt ms sched s,
+  steps (mkOpts b p vt true) ms sched s = steps (mkOpts b p vt false) ms sched s.
+Proof.
+  intros b p vt ms sched. unfold steps. induction sched as [|pid sched IH]; intros s; simpl; [reflexivity|].
+  assert (E : sys_step (mkOpts b p vt true) ms s pid = sys_step (mkOpts b p vt false) ms s pid).
+  { unfold sys_step. destruct (nth_error (s_insts s) pid) as [q|]; [|reflexivity].
+    unfold pstep. destruct (i_res (p_inst q)); [reflexivity|]. destruct (p_todo q) as [|x r]; [reflexivity|].
+    rewrite (exec_verbose (p_faults q) b p vt true false). cbv zeta.
+    rewrite (plan_verbose b p vt true false). reflexivity. }
+  rewrite E. apply IH.
+Qed.
